@@ -140,6 +140,13 @@ def clientLine (rs : RibSt) (cl : Cl.State) (ts : List Tok) : RibSt × Cl.State 
           let rs := match obsRes.find? (fun o => !o.isNil && o.opId != 0 && o.details.isNone && terminal cl.fibMode (statusOfNum o.status)) with
             | some o => rs.monfail "c13" s!"the terminal result of operation {o.opId} does not carry the operation's type and key"
             | none => rs
+          -- C13 monitor (conservation, on the client's own observations against the log of what the
+          -- application handed over and the client registered): an operation that has left the send
+          -- queue is pending or has a terminal result — it is never lost
+          let rs := match cl.accepted.find? (fun a => !ids.contains a.1 &&
+              !obsRes.any (fun o => !o.isNil && o.opId == a.1 && terminal cl.fibMode (statusOfNum o.status))) with
+            | some a => rs.monfail "c13" s!"operation {a.1} was handed to the client and registered, but is neither pending nor represented by a terminal result: it is lost"
+            | none => rs
           if rs.diverged then (rs, cl) else
           let mIds := cl.pendOps.map (·.1)
           let rs := if permEq mIds ids then rs else rs.diff "cl.pend" s!"model={mIds} impl={ids}"
